@@ -1,5 +1,5 @@
 import os, time, vf
-from concurrent.futures import ThreadPoolExecutor
+from concurrent.futures import ProcessPoolExecutor
 PID = "C15"
 D = vf.VERIF + "/checks/C15/"
 STUB = [vf.VERIF + "/engine/sched/log_stub.cpp"]
@@ -7,7 +7,8 @@ NET = ["network/dns_request.cpp", "network/udp_socket.cpp", "network/socket_fd.c
        "util/serializer.cpp", "util/string.cpp", "util/fd.cpp"]
 def builds():
     srcs = vf.module_sources("event", *NET)
-    with ThreadPoolExecutor(3) as ex:
+    # separate processes: vf's object cache names its temporary files by pid, so concurrent builds must not share one
+    with ProcessPoolExecutor(3) as ex:
         fa = ex.submit(vf.build, "C15/parser_asan", [D + "parser_harness.cpp"], srcs, mode="asan", plain_srcs=STUB)
         fp = ex.submit(vf.build, "C15/parser_plain", [D + "parser_harness.cpp"], srcs, mode="plain", plain_srcs=STUB)
         fl = ex.submit(vf.build, "C15/lookup_asan", [D + "lookup_harness.cpp"], srcs, mode="asan", plain_srcs=STUB)
@@ -23,12 +24,12 @@ def main(tier, args):
         dl = min(dl, max(5.0, float(os.environ["VERIF_DEADLINE_S"]) - (time.time() - t0) - 5))
     jobs = []
     if quick:
-        jobs += shards("plain-tail3s", pp, "tail3s", 12)                 # id + every 2-byte flags + third byte in {00,01,3f,40,c0,ff}
-        jobs += shards("asan-tail2", pa, "tail", 8, 2)                    # id + every byte string of length <= 2
-        jobs += shards("plain-tail2", pp, "tail", 4, 2)
-        jobs += shards("asan-struct", pa, "struct", 4)
-        jobs += shards("plain-struct", pp, "struct", 1)
         jobs += [("lookups:%s" % e, [lk, e, "6", "2", "2"]) for e in ("epoll", "select")]
+        jobs += shards("plain-struct", pp, "struct", 1)
+        jobs += shards("asan-struct", pa, "struct", 4)
+        jobs += shards("plain-tail2", pp, "tail", 4, 2)                   # id + every byte string of length <= 2
+        jobs += shards("asan-tail2", pa, "tail", 8, 2)
+        jobs += shards("plain-tail3s", pp, "tail3s", 16)                  # id + every 2-byte flags + third byte in {00,01,3f,40,c0,ff}
         tail_rule = "length <=2 (both builds) and length 3 with the third byte in {00,01,3f,40,c0,ff} (plain build)"
         ldepth = "depth 6, 2 lookups, 2 servers"
     else:
